@@ -1,0 +1,18 @@
+//go:build verif
+
+package hydra
+
+// Machine-checked contracts (comment-only; compiled only with -tags verif).
+//
+// Event fan-out (property C19): the per-subscriber step of eventCallbackFunction delivers the
+// event by calling the subscriber's function in the writer's own goroutine -- it starts no
+// goroutine -- so deliveries to one subscriber happen in the order the writer produced the events
+// and never overlap; iteration over the subscribers always continues with the next subscriber.
+//@ func (*hydra).UnsubscribeFromSwampEvents(h, clientID, swampName) (err)
+//@   opaque
+//@   modifies *
+//@ func (*hydra).eventCallbackFunction$1(key, value) (cont)
+//@   property C19
+//@   modifies *
+//@   nogo[event_delivered_in_the_writers_goroutine]
+//@   ensures[every_subscriber_is_visited] cont
